@@ -14,6 +14,12 @@ import (
 	"verif/mc/engine"
 )
 
+// deadline is the worker's soft budget; when exceeded, explorations stop expanding and report
+// cap_hit (=> exhaustive:false), never an alarm.
+var deadline *engine.Budget
+
+func outOfTime() bool { return deadline != nil && deadline.Exceeded() }
+
 // unitStats is what one work unit (one initial state / one grid chunk) reports to the parent.
 type unitStats struct {
 	Part             string             `json:"part"`
@@ -147,6 +153,10 @@ func exploreA(name string, init *stateA, b *boundsA, maxStates int) *unitStats {
 			nodes[i].s = nil
 			continue
 		}
+		if outOfTime() {
+			u.CapHit = true
+			break
+		}
 		for _, e := range enabledA(n.s, b) {
 			r, err := applyA(n.s, e)
 			if err != nil {
@@ -271,6 +281,10 @@ func exploreStaticA(tier string, chunk, chunks int) *unitStats {
 	seenKeys := map[string]bool{}
 	staticCases(tier, func(i int, s *stateA) {
 		if i%chunks != chunk || u.HarnessError != "" {
+			return
+		}
+		if outOfTime() {
+			u.CapHit = true
 			return
 		}
 		u.States++
@@ -424,9 +438,13 @@ func ordersB(s *stateB) [][]int {
 	return [][]int{parentFirst, childFirst}
 }
 
-func judgeB(u *unitStats, init *stateB, evs []eventB, labels []string, s *stateB, class string, seenKeys map[string]bool) error {
+func judgeB(u *unitStats, init *stateB, evs []eventB, labels []string, s *stateB, class string, seenKeys map[string]bool, bothOrders bool) error {
 	var finals []string
-	for _, order := range ordersB(s) {
+	orders := ordersB(s)
+	if !bothOrders {
+		orders = orders[:1] // parent-first: the order that needs one round per level
+	}
+	for _, order := range orders {
 		f, err := fixpointB(s, order, len(s.Queues)+3)
 		if err != nil {
 			return err
@@ -437,7 +455,7 @@ func judgeB(u *unitStats, init *stateB, evs []eventB, labels []string, s *stateB
 			u.BoundHits++
 		}
 		if f.Converged {
-			u.NoopWrites += len(order) // the extra idempotence pass patches unchanged objects
+			u.NoopWrites += len(order) // the closing, change-free round patches unchanged objects
 			finals = append(finals, f.Final.key())
 			nz := false
 			ps := f.Final.parents()
@@ -498,7 +516,7 @@ func exploreB(name string, init *stateB, b *boundsB, maxStates int) *unitStats {
 	for i := 0; i < len(nodes); i++ {
 		n := nodes[i]
 		evs, labels := historyB(nodes, i)
-		if err := judgeB(u, init, evs, labels, n.s, n.class, seenKeys); err != nil {
+		if err := judgeB(u, init, evs, labels, n.s, n.class, seenKeys, b.BothOrders || n.depth <= 1); err != nil {
 			u.HarnessError = err.Error()
 			return u
 		}
@@ -508,6 +526,10 @@ func exploreB(name string, init *stateB, b *boundsB, maxStates int) *unitStats {
 		if n.depth >= b.Depth {
 			nodes[i].s = nil
 			continue
+		}
+		if outOfTime() {
+			u.CapHit = true
+			break
 		}
 		for _, e := range enabledB(n.s, b) {
 			r, err := applyB(n.s, e)
